@@ -49,11 +49,16 @@ class AQTTargetGateset(cirq.TwoQubitCompilationTargetGateset):
     def _decompose_single_qubit_operation(self, op: cirq.Operation, _: int) -> DecomposeResult:
         # unwrap tagged and circuit operations to get the actual operation
         opu = op.untagged
-        opu = (
-            next(opu.circuit.all_operations()).untagged
-            if isinstance(opu, cirq.CircuitOperation) and len(opu.circuit) == 1
-            else opu
-        )
+        if (
+            isinstance(opu, cirq.CircuitOperation)
+            and len(opu.circuit) == 1
+            and opu.repetitions == 1
+            and not opu.qubit_map
+            and not opu.param_resolver
+        ):
+            # (a circuit operation that repeats, remaps or resolves its body stands for more than
+            # its single operation: it is compiled through its matrix below)
+            opu = next(opu.circuit.all_operations()).untagged
         if isinstance(opu.gate, cirq.HPowGate) and opu.gate.exponent == 1:
             return [cirq.rx(np.pi).on(opu.qubits[0]), cirq.ry(-1 * np.pi / 2).on(opu.qubits[0])]
         if cirq.has_unitary(opu):
